@@ -38,13 +38,16 @@ class Case:
         self.base_text, self.program, self.insts, self.model_exprs = base_text, program, insts, model_exprs
         self.ordered, self.final_cols = ordered, final_cols
         self.variants = []      # (stream, label, text, coq list | None)
+        self.betas = []         # (label, text, Coq `(beta F C, Some E)`) for function-call rewrites
         self.seen = {base_text}
 
-    def add(self, stream, label, text, coq=None):
+    def add(self, stream, label, text, coq=None, beta=None):
         if text in self.seen:
             return False
         self.seen.add(text)
         self.variants.append((stream, label, text, coq))
+        if beta is not None:
+            self.betas.append((label, text, beta))
         return True
 
 
@@ -264,14 +267,18 @@ def classify_c06(rec):
             if has_let and col in BASE_COLS and re.search(r"\bsort\b", prql) and \
                     any(re.search(r"\b%s\b" % col, seg) for seg in re.findall(r"SELECT ((?:(?!SELECT).)*?) FROM r_\d+", sql)):
                 return "F68-let-sort-key-recomputed"
-            mq = re.search(r"no such column: ([A-Za-z_0-9]+\._expr_\d+)", txt)
+            mq = re.search(r"no such column: ([A-Za-z_0-9]+\.[A-Za-z_0-9]+)", txt)
             if mq and re.search(r"\bsort\b", prql) and re.search(r"\bjoin\b", prql) and re.search(r"ORDER BY [^()]*%s\b" % re.escape(mq.group(1)), sql):
                 return "F67-sort-column-qualified-after-join"
             if re.search(r"\b(?:aggregate|group)\b", prql) and re.search(r"\bsort\b", prql) and re.search(r"ORDER BY [^()]*\b%s\b" % re.escape(col), sql):
                 return "F65-sort-survives-aggregate"
+        if m and re.fullmatch(r"_expr_\d+", m.group(1)) and re.search(r"\bsort\b", prql) and re.search(r"ORDER BY [^()]*\b%s\b[^()]*$" % m.group(1), sql):
+            return "F69-sort-alias-not-carried"
         if "UNION ALL" in sql and "same number of result columns" in txt and union_pruned(sql, lab.startswith("let2-append")):
             return "F28-append-prune"
     if rec["tag"] == "rows" and rec["verdict"] == "rows":
+        if re.search(r"(?m)^take [^\n]*\nsort [^\n]*\ntake [^\n]*\n(?:group|aggregate)", prql) and len(re.findall(r"\bLIMIT\b", sql)) <= 1:
+            return "F70-take-sort-take-merged"
         if has_let and re.search(r"\bsort\b", prql) and _OVER_NO_ORDER.search(sql):
             return "F62-let-loses-window-order"
         if "UNION ALL" in sql and union_pruned(sql, lab.startswith("let2-append")):
@@ -364,6 +371,24 @@ def engine_stream(ck, cases):
                          {"kind": "engine", "label": label, "base": c.base_text, "rewritten": text, "instance": c.insts[0]})
 
 
+BETA_HEADER = R.HEADER + "From PV Require Import Model.Subst.\n"
+
+
+def beta_stream(ck, cases):
+    """tie between the function model (Model/Subst.v: bindings / beta / pipe) and the rewrite engine: for the generated
+    function F and call C that replaced expression E, `beta F C` computed inside Coq must be exactly E"""
+    items = [(c, b) for c in cases for b in c.betas]
+    ck.rng.shuffle(items)
+    items = items[: ck.n(600, 6000)]
+    vals = coq_eval(BETA_HEADER, [b[2] for _, b in items])
+    for (c, (label, text, expr)), v in zip(items, vals):
+        ck.count("beta", expr)
+        ck.stat("beta", "kind:" + label.split("@")[0])
+        if v is None or not isinstance(v, tuple) or len(v) != 2 or v[0] != v[1]:
+            ck.violation("function model: beta-reduction of the generated call is not the replaced expression (%s): %s" % (label, text.replace("\n", " | ")[:300]),
+                         {"kind": "beta", "label": label, "rewritten": text, "coq": expr, "value": repr(v)[:600]})
+
+
 # ------------------------------------------------------------------------------ main
 
 def run():
@@ -389,7 +414,8 @@ def run():
         # depth 1: every applicable site of every kind
         for lab, q in W.all_sites(rp, rng, func_per_slot=ck.n(2, 7), trfunc_per_site=ck.n(1, 5), trfunc_maxlen=ck.n(2, 3)):
             k = W.kind_of(lab)
-            if c.add(k, lab, q.prql(), q.coq() if k in ("filter", "identity") else None):
+            if c.add(k, lab, q.prql(), q.coq() if k in ("filter", "identity") else None,
+                     W.coq_func_call(*q.last_func) if (k == "func" and q.last_func) else None):
                 site_hist[k] = site_hist.get(k, 0) + 1
         # module moves need a declaration: every declaration produced by a let / function rewrite, moved
         l1 = W.sites_let(rp, rng, ("let",))
@@ -446,6 +472,7 @@ def run():
     judge_cases(ck, cases, comp, execd, model)
     t3 = time.time()
     engine_stream(ck, cases)
+    beta_stream(ck, cases)
     ck.coverage["seconds"] = {"generate": round(t1 - t0, 1), "compile+exec+reference": round(t2 - t1, 1), "judge": round(t3 - t2, 1), "engine": round(time.time() - t3, 1)}
     ck.coverage["sites_by_kind"] = site_hist
     ck.coverage["base_programs"] = n_base
